@@ -94,11 +94,20 @@ fn stmt_uses_json_stringify(stmt: &Statement) -> bool {
         Statement::TupleAssign(assign) => expr_uses_json_stringify(&assign.value.node),
         Statement::Return(Some(expr)) => expr_uses_json_stringify(&expr.node),
         Statement::If(if_stmt) => {
-            body_uses_json_stringify(&if_stmt.then_body)
+            expr_uses_json_stringify(&if_stmt.condition.node)
+                || body_uses_json_stringify(&if_stmt.then_body)
+                || if_stmt
+                    .elif_branches
+                    .iter()
+                    .any(|(cond, body)| expr_uses_json_stringify(&cond.node) || body_uses_json_stringify(body))
                 || if_stmt.else_body.as_ref().is_some_and(|b| body_uses_json_stringify(b))
         }
-        Statement::While(while_stmt) => body_uses_json_stringify(&while_stmt.body),
-        Statement::For(for_stmt) => body_uses_json_stringify(&for_stmt.body),
+        Statement::While(while_stmt) => {
+            expr_uses_json_stringify(&while_stmt.condition.node) || body_uses_json_stringify(&while_stmt.body)
+        }
+        Statement::For(for_stmt) => {
+            expr_uses_json_stringify(&for_stmt.iter.node) || body_uses_json_stringify(&for_stmt.body)
+        }
         _ => false,
     }
 }
@@ -243,6 +252,10 @@ fn stmt_uses_async(stmt: &Statement) -> bool {
         Statement::If(if_stmt) => {
             expr_uses_async(&if_stmt.condition.node)
                 || body_uses_async(&if_stmt.then_body)
+                || if_stmt
+                    .elif_branches
+                    .iter()
+                    .any(|(cond, body)| expr_uses_async(&cond.node) || body_uses_async(body))
                 || if_stmt.else_body.as_ref().is_some_and(|b| body_uses_async(b))
         }
         Statement::While(while_stmt) => {
@@ -418,11 +431,20 @@ fn stmt_uses_list_helpers(stmt: &Statement) -> bool {
         Statement::TupleAssign(assign) => expr_uses_list_helpers(&assign.value.node),
         Statement::Return(Some(expr)) => expr_uses_list_helpers(&expr.node),
         Statement::If(if_stmt) => {
-            body_uses_list_helpers(&if_stmt.then_body)
+            expr_uses_list_helpers(&if_stmt.condition.node)
+                || body_uses_list_helpers(&if_stmt.then_body)
+                || if_stmt
+                    .elif_branches
+                    .iter()
+                    .any(|(cond, body)| expr_uses_list_helpers(&cond.node) || body_uses_list_helpers(body))
                 || if_stmt.else_body.as_ref().is_some_and(|b| body_uses_list_helpers(b))
         }
-        Statement::While(while_stmt) => body_uses_list_helpers(&while_stmt.body),
-        Statement::For(for_stmt) => body_uses_list_helpers(&for_stmt.body),
+        Statement::While(while_stmt) => {
+            expr_uses_list_helpers(&while_stmt.condition.node) || body_uses_list_helpers(&while_stmt.body)
+        }
+        Statement::For(for_stmt) => {
+            expr_uses_list_helpers(&for_stmt.iter.node) || body_uses_list_helpers(&for_stmt.body)
+        }
         _ => false,
     }
 }
